@@ -338,6 +338,115 @@ fn curve_checks(args: &Args, st: &mut Stats) {
     }
 }
 
+/// line x cubic / quadratic in f32: lattice curves moved by an affine map (generic cubics, degree-elevated
+/// quadratics, cubics with a linear derivative), a line through two well separated curve points that it
+/// crosses transversally.  Soundness: every reported parameter is on the line (1e-3 of the curve's size);
+/// completeness: both crossings are reported.  K16: in f32 the closed-form root finder cannot decide the
+/// number of real roots when the cubic coefficient of the projected polynomial is tiny against the others.
+fn curve_checks_f32(args: &Args, st: &mut Stats) {
+    type S = f32;
+    let mut rng = Rng::new(args.seed ^ 0x1275);
+    let n = if args.thorough() { 120000 } else { 15000 };
+    for it in 0..n {
+        let r = &mut rng;
+        let g = |r: &mut Rng| point(r.range(-9, 9) as S, r.range(-9, 9) as S);
+        let q = QuadraticBezierSegment { from: g(r), ctrl: g(r), to: g(r) };
+        let straight_q = ((q.ctrl - q.from).cross(q.to - q.from)).abs() < 0.5;
+        let base = match it % 3 {
+            2 => CubicBezierSegment { from: g(r), ctrl1: g(r), ctrl2: g(r), to: g(r) },
+            0 => q.to_cubic(),
+            _ => {
+                let (p0, p1, p2) = (g(r), g(r), g(r));
+                CubicBezierSegment { from: p0, ctrl1: p1, ctrl2: p2, to: point(p0.x - 3.0 * (p1.x - p2.x), p0.y - 3.0 * (p1.y - p2.y)) }
+            }
+        };
+        if it % 3 == 0 && straight_q {
+            continue; // a line through two points of a straight curve overlaps it
+        }
+        let t = lyon_geom::euclid::default::Transform2D::<S>::new(
+            0.3 + r.unit_f64() as S, (r.unit_f64() - 0.5) as S, (r.unit_f64() - 0.5) as S, 0.3 + r.unit_f64() as S,
+            (r.unit_f64() * 10.0 - 5.0) as S, (r.unit_f64() * 10.0 - 5.0) as S);
+        let c = CubicBezierSegment { from: t.transform_point(base.from), ctrl1: t.transform_point(base.ctrl1), ctrl2: t.transform_point(base.ctrl2), to: t.transform_point(base.to) };
+        let (ta, tb) = (0.15 + 0.3 * r.unit_f64() as S, 0.55 + 0.3 * r.unit_f64() as S);
+        let (pa, pb) = (c.sample(ta), c.sample(tb));
+        if (pb - pa).length() < 0.5 {
+            continue;
+        }
+        let line = Line { point: pa, vector: pb - pa };
+        let dir = line.vector.normalize();
+        let (da, db) = (c.derivative(ta), c.derivative(tb));
+        if da.length() < 0.5 || db.length() < 0.5 || da.normalize().cross(dir).abs() < 0.2 || db.normalize().cross(dir).abs() < 0.2 {
+            continue;
+        }
+        st.inc("evaluations");
+        st.inc("cubic_line_f32");
+        let label = format!("{:?} {:?}", c, line);
+        st.note_case(&label, true);
+        let scale = 1.0 + c.from.to_vector().length().max(c.to.to_vector().length()).max(c.ctrl1.to_vector().length()).max(c.ctrl2.to_vector().length());
+        // coefficients of the polynomial the query solves (for the K16 classification)
+        let (from, c1, c2, to) = (c.from.to_vector(), c.ctrl1.to_vector(), c.ctrl2.to_vector(), c.to.to_vector());
+        let p1 = to - from + (c1 - c2) * 3.0;
+        let p2 = from * 3.0 + (c2 - c1 * 2.0) * 3.0;
+        let p3 = (c1 - from) * 3.0;
+        let (ka, kb, kc) = (line.vector.y * p1.x - line.vector.x * p1.y, line.vector.y * p2.x - line.vector.x * p2.y, line.vector.y * p3.x - line.vector.x * p3.y);
+        let tiny_leading = ka.abs() <= 2e-3 * kb.abs().max(kc.abs());
+        match catch(|| (c.line_intersections_t(&line), c.line_intersections(&line))) {
+            None => st.fail(jobj(&[("what", jstr("cubic line_intersections_t panicked (f32)")), ("input", jstr(&label))])),
+            Some((ts, pts)) => {
+                for t in ts.iter() {
+                    let d = ((c.sample(*t) - pa).cross(line.vector) / line.vector.length()).abs();
+                    if !(0.0..=1.0).contains(t) || d > 1e-3 * scale {
+                        st.fail(jobj(&[("what", jstr("cubic/line (f32): reported parameter is not on the line")), ("input", jstr(&format!("{} t={} distance {}", label, t, d)))]));
+                        break;
+                    }
+                }
+                if pts.len() != ts.len() || pts.iter().zip(ts.iter()).any(|(p, t)| (*p - c.sample(*t)).length() > 1e-4 * scale) {
+                    st.fail(jobj(&[("what", jstr("cubic/line (f32): line_intersections is not the curve sampled at line_intersections_t")), ("input", jstr(&label))]));
+                }
+                for want in [ta, tb] {
+                    if !ts.iter().any(|t| (c.sample(*t) - c.sample(want)).length() < 1e-2 * scale) {
+                        let mut f = vec![("what", jstr("cubic/line (f32): transversal crossing not reported")), ("input", jstr(&format!("{} want t={} got {:?}", label, want, ts)))];
+                        if tiny_leading {
+                            f.push(("class", jstr("K16")));
+                        }
+                        st.fail(jobj(&f));
+                        break;
+                    }
+                }
+            }
+        }
+        // the quadratic itself (moved by the same map), when it is not straight
+        if it % 3 == 0 {
+            let q2 = QuadraticBezierSegment { from: t.transform_point(q.from), ctrl: t.transform_point(q.ctrl), to: t.transform_point(q.to) };
+            let (pa, pb) = (q2.sample(ta), q2.sample(tb));
+            if (pb - pa).length() < 0.5 {
+                continue;
+            }
+            let line = Line { point: pa, vector: pb - pa };
+            st.inc("quad_line_f32");
+            let label = format!("{:?} {:?}", q2, line);
+            match catch(|| q2.line_intersections_t(&line)) {
+                None => st.fail(jobj(&[("what", jstr("quadratic line_intersections_t panicked (f32)")), ("input", jstr(&label))])),
+                Some(ts) => {
+                    for t in ts.iter() {
+                        let d = ((q2.sample(*t) - pa).cross(line.vector) / line.vector.length()).abs();
+                        if !(0.0..=1.0).contains(t) || d > 1e-3 * scale {
+                            st.fail(jobj(&[("what", jstr("quadratic/line (f32): reported parameter is not on the line")), ("input", jstr(&format!("{} t={} distance {}", label, t, d)))]));
+                            break;
+                        }
+                    }
+                    for want in [ta, tb] {
+                        if !ts.iter().any(|t| (q2.sample(*t) - q2.sample(want)).length() < 1e-2 * scale) {
+                            st.fail(jobj(&[("what", jstr("quadratic/line (f32): transversal crossing not reported")), ("input", jstr(&format!("{} want t={} got {:?}", label, want, ts)))]));
+                            break;
+                        }
+                    }
+                }
+            }
+        }
+    }
+}
+
 /// utils::cubic_polynomial_roots (the root finder behind the line x cubic queries): every reported
 /// root is a root, and well-separated real roots are all reported
 fn root_checks(args: &Args, st: &mut Stats) {
@@ -641,6 +750,7 @@ pub fn main(args: &Args) -> std::io::Result<()> {
     triangle_checks(args, &mut st);
     line_family_checks(args, &mut st);
     root_checks(args, &mut st);
+    curve_checks_f32(args, &mut st);
     w.finish()?;
     st.write(&args.out.join("c12_stats.json"))
 }
